@@ -5,6 +5,7 @@ package main
 import (
 	"fmt"
 	"go/token"
+	"strings"
 
 	"golang.org/x/tools/go/ssa"
 )
@@ -73,38 +74,43 @@ func windowGuards(fn *ssa.Function) []windowGuard {
 			out = append(out, g)
 			continue
 		}
-		// normalise to  lhs < rhs  holding on edge `edge`
-		var lhs, rhs ssa.Value
-		edge := 0
-		adj := int64(0)
+		// normalise to  lhs < rhs + adj  holding on edge `edge`; each comparison says something on both of its edges
+		type norm struct {
+			lhs, rhs ssa.Value
+			edge     int
+			adj      int64
+		}
+		var cands []norm
 		switch bo.Op {
-		case token.LSS:
-			lhs, rhs = bo.X, bo.Y
-		case token.GTR:
-			lhs, rhs = bo.Y, bo.X
-		case token.GEQ: // !(X >= Y)  ==  X < Y on the false edge
-			lhs, rhs, edge = bo.X, bo.Y, 1
-		case token.LEQ: // X <= Y == X < Y+1 : lhs+(-1)... treat as lhs-1 < rhs? X<=Y means X-1<Y... no: X <= Y  <=>  X < Y+1
-			lhs, rhs, adj = bo.X, bo.Y, 1
+		case token.LSS: // X < Y | else Y <= X
+			cands = []norm{{bo.X, bo.Y, 0, 0}, {bo.Y, bo.X, 1, 1}}
+		case token.GTR: // Y < X | else X <= Y
+			cands = []norm{{bo.Y, bo.X, 0, 0}, {bo.X, bo.Y, 1, 1}}
+		case token.GEQ: // Y <= X | else X < Y
+			cands = []norm{{bo.X, bo.Y, 1, 0}, {bo.Y, bo.X, 0, 1}}
+		case token.LEQ: // X <= Y | else Y < X
+			cands = []norm{{bo.X, bo.Y, 0, 1}, {bo.Y, bo.X, 1, 0}}
 		default:
 			continue
 		}
-		s := lenOf(rhs)
-		rbase, rc := splitOffset(rhs)
-		if s == nil {
-			s = lenOf(rbase)
-		} else {
-			rc = 0
+		for _, c := range cands {
+			s := lenOf(c.rhs)
+			rbase, rc := splitOffset(c.rhs)
+			if s == nil {
+				s = lenOf(rbase)
+			} else {
+				rc = 0
+			}
+			if s == nil {
+				continue
+			}
+			x, k := splitOffset(c.lhs)
+			// x + k < len(s) + rc + adj   =>  x + (k - rc - adj) < len(s)
+			k = k - rc - c.adj
+			g := windowGuard{fn: fn, iff: iff, base: x, slice: s, k: k, edge: c.edge, maxOff: -1 << 30}
+			g.collectReads(b, c.edge)
+			out = append(out, g)
 		}
-		if s == nil {
-			continue
-		}
-		x, k := splitOffset(lhs)
-		// x + k < len(s) + rc + adj   =>  x + (k - rc - adj) < len(s)
-		k = k - rc - adj
-		g := windowGuard{fn: fn, iff: iff, base: x, slice: s, k: k, edge: edge, maxOff: -1 << 30}
-		g.collectReads(b, edge)
-		out = append(out, g)
 	}
 	return out
 }
@@ -186,9 +192,52 @@ func remainingLengthGuard(fn *ssa.Function, b *ssa.BasicBlock, iff *ssa.If, bo *
 // uncoveredReads: reads s[X+j] (j > 0 constant) dominated by at least one window guard on the same (X, s) but by none
 // with k >= j.
 type uncoveredRead struct {
-	ins   *ssa.IndexAddr
+	ins   ssa.Instruction // the IndexAddr, or the call of a function that reads s[p] of its parameters unguarded
+	X     ssa.Value       // the slice
+	Index ssa.Value       // the index expression
 	j, k  int64
 	guard *ssa.If
+}
+
+// readsParamUnguarded: fn indexes its slice parameter si at its integer parameter pi (or at a loop variable that starts
+// there) in a block that no comparison with len(that slice) dominates — the caller must have made sure p < len(s).
+func readsParamUnguarded(fn *ssa.Function, si, pi int) bool {
+	if fn == nil || fn.Blocks == nil || si >= len(fn.Params) || pi >= len(fn.Params) {
+		return false
+	}
+	s, p := ssa.Value(fn.Params[si]), ssa.Value(fn.Params[pi])
+	for _, b := range fn.Blocks {
+		for _, ins := range b.Instrs {
+			ia, ok := ins.(*ssa.IndexAddr)
+			if !ok || ia.X != s {
+				continue
+			}
+			starts := ia.Index == p
+			if ph, isPhi := ia.Index.(*ssa.Phi); isPhi {
+				for i, e := range ph.Edges {
+					if e == p && !ph.Block().Dominates(ph.Block().Preds[i]) {
+						starts = true
+					}
+				}
+			}
+			if !starts {
+				continue
+			}
+			lenGuarded := false
+			for _, cf := range dominatingConds(b) {
+				operandsClosure(cf.If.Cond, func(v ssa.Value) bool {
+					if lenOf(v) == s {
+						lenGuarded = true
+					}
+					return !lenGuarded
+				})
+			}
+			if !lenGuarded {
+				return true
+			}
+		}
+	}
+	return false
 }
 
 func uncoveredReads(fn *ssa.Function) (covered int, out []uncoveredRead) {
@@ -198,12 +247,34 @@ func uncoveredReads(fn *ssa.Function) (covered int, out []uncoveredRead) {
 	}
 	for _, blk := range fn.Blocks {
 		for _, ins := range blk.Instrs {
-			ia, ok := ins.(*ssa.IndexAddr)
-			if !ok {
+			var rdX, rdIdx ssa.Value
+			minJ := int64(1)
+			switch x := ins.(type) {
+			case *ssa.IndexAddr:
+				rdX, rdIdx = x.X, x.Index
+			case *ssa.Call:
+				// a module helper that reads s[p] of its (slice, index) parameters without a length test of its own
+				cal := x.Common().StaticCallee()
+				if cal == nil || cal.Blocks == nil || len(x.Common().Args) < 2 || cal.Pkg == nil || !strings.HasPrefix(cal.Pkg.Pkg.Path(), modPath) {
+					continue
+				}
+				for si, a := range x.Common().Args {
+					if !isByteSlice(a.Type()) {
+						continue
+					}
+					for pi, pa := range x.Common().Args {
+						if pi != si && isInteger(pa.Type()) && readsParamUnguarded(cal, si, pi) {
+							rdX, rdIdx, minJ = a, pa, 0
+						}
+					}
+				}
+			}
+			if rdX == nil {
 				continue
 			}
+			ia := struct{ X, Index ssa.Value }{rdX, rdIdx}
 			x, j := splitOffset(ia.Index)
-			if j <= 0 {
+			if j < minJ {
 				continue
 			}
 			best := int64(-1 << 30)
@@ -225,7 +296,7 @@ func uncoveredReads(fn *ssa.Function) (covered int, out []uncoveredRead) {
 			if best >= j {
 				covered++
 			} else {
-				out = append(out, uncoveredRead{ia, j, best, bg})
+				out = append(out, uncoveredRead{ins, ia.X, ia.Index, j, best, bg})
 			}
 		}
 	}
@@ -278,15 +349,15 @@ func ruleLookaheadCovered(w *World, r *Report) {
 		c, un := uncoveredReads(fn)
 		covered += c
 		for _, u := range un {
-			x, _ := splitOffset(u.ins.Index)
-			if k2 := neqBoost(fn, u.ins.Block(), x, u.ins.X, u.k); k2 >= u.j {
+			x, _ := splitOffset(u.Index)
+			if k2 := neqBoost(fn, u.ins.Block(), x, u.X, u.k); k2 >= u.j {
 				covered++
 				continue
 			}
-			if opaquePredicateOn(u.ins.Block(), u.ins.X) {
+			if opaquePredicateOn(u.ins.Block(), u.X) {
 				continue // a dominating branch on a predicate over the same slice: not judged here
 			}
-			key := fmt.Sprintf("%s: %s[%s]", w.FnKey(fn), stableName(u.ins.X), exprOfOffset(u.ins.Index))
+			key := fmt.Sprintf("%s: %s[%s]", w.FnKey(fn), stableName(u.X), exprOfOffset(u.Index))
 			if why, ok := lookaheadExceptions[w.FnKey(fn)]; ok {
 				r.OK(key, w.InstrPos(u.ins), "reviewed exception: "+why)
 				continue
